@@ -860,6 +860,24 @@ NS_INTRO = [
 ]
 
 
+# roots that differ in SEVERAL prefix declarations at once (added, removed, both): the order of the namespace actions
+# must not come from a set of strings (hash seed)
+_U = ' '.join('xmlns:%s="urn:m%d"' % (p_, i_) for i_, p_ in enumerate(("p", "q", "s", "t", "zz")))
+NS_MULTI = [
+    ('<r><k/></r>', '<r %s><k/><p:n/><q:n/><s:n/><t:n/><zz:n/></r>' % _U),
+    ('<r %s><k/></r>' % _U, '<r><k/></r>'),
+    ('<r xmlns:p="urn:m0" xmlns:q="urn:m1" xmlns:e="urn:e" xmlns:f="urn:f" xmlns:g="urn:g"><k/><e:x/></r>', '<r %s><k/><s:n/><t:n/></r>' % _U),
+]
+# texts whose edits can slide across line breaks and blank lines, several of them meeting the same characters in
+# different surroundings: anything the text diff remembers between calls (a memo keyed too coarsely) shows when a pair
+# is diffed alone in a fresh process and in the middle of the others
+TEXT_SLIDE = [('<r><p>%s</p></r>' % a_, '<r><p>%s</p></r>' % b_) for a_, b_ in [
+    ("\n\n\n", "\n\na\n\n"), ("a\nb", "a\n\nb"), ("a\n\nb", "a\nb"), ("x\n\ny\n\nz", "x\n\ny\n\ny\n\nz"), ("a b", "a  b"),
+    ("one\ntwo\n", "one\n\ntwo\n"), ("a\nb\nc", "a\nb\nb\nc"), ("The cat. The end.", "The cat. The dog. The end."),
+    ("a.\n\nb.", "a.\n\nc.\n\nb."), ("ab\ncd", "ab\n\ncd"), ("a\r\nb", "a\r\n\r\nb"), ("k\n\n\nk", "k\n\nk"),
+    ("1, 2, 3", "1, 2, 2, 3"), ("aXbXc", "aXbXbXc"), ("a\tb\tc", "a\tb\tb\tc")]]
+
+
 def monitor_reuse_objects(rng, pairs, viols, counts):
     """Pure-Python reuse oracles (independent of the Coq model, so they still search when the tie is
     broken): ONE Patcher, ONE DiffFormatter, ONE XmlDiffFormatter, ONE XMLFormatter and ONE Differ are
@@ -896,30 +914,64 @@ def monitor_reuse_objects(rng, pairs, viols, counts):
                                            infoset_of_text(fresh) == infoset_of_text(again) and pred_script(lx, rx, struct(acts))):
                     viols.append({"what": "a reused %s gives a different result than a new one: %r vs %r" % (nm, again, fresh),
                                   "replay": {"kind": "object-reuse", "object": nm, "history": hist}})
-    # one Differ, the same lxml objects handed over again and again
-    docs = sorted({d for p in plain[:14] for d in p})[:10]
+    # one Differ, the same lxml objects handed over again and again -- and EDITED IN PLACE between two calls (a caller
+    # that keeps one reference tree and revises it): what the differ remembers about a node must not outlive the call
+    docs0 = sorted({d for p in plain[:14] for d in p})[:10]
     for opts in ({}, {"fast_match": True}, {"best_match": True}):
-        objs = [X(d) for d in docs]
-        d = diff.Differ(**opts)
+        docs = list(docs0)
         hist = []
         for _ in range(40):
             i, j = rng.randrange(len(docs)), rng.randrange(len(docs))
             if hist and rng.random() < .5:
                 i, j = (hist[-1][0], hist[-1][1]) if rng.random() < .4 else (i, hist[-1][1])     # same pair again / same right object
-            how = rng.choice(("diff", "match+diff", "diff-partial"))
-            hist = hist + [[i, j, how]]
-            fresh = call(lambda: struct(main.diff_trees(X(docs[i]), X(docs[j]), diff_options=opts)))
-            if how == "match+diff":
-                call(lambda: d.match(objs[i], objs[j]))
-            if how == "diff-partial":      # an earlier generator abandoned half way
-                g = d.diff(objs[i], objs[j])
-                call(lambda: next(g, None))
-            again = call(lambda: struct(list(d.diff(objs[i], objs[j]))))
-            counts["differ_same_objects"] += 1
-            if fresh != again:
-                viols.append({"what": "one Differ fed the same tree objects again gives a different script than a new Differ: %r vs %r" % (again, fresh),
-                              "replay": {"kind": "differ-same-objects", "opts": opts, "docs": docs, "history": hist}})
-                d, hist = diff.Differ(**opts), []
+            how = rng.choice(("diff", "match+diff", "diff-partial", "edit-right", "edit-left"))
+            hist = hist + [[i, j, how, rng.randrange(1000)]]
+        counts["differ_same_objects"] += len(hist)
+        bad = differ_object_history(docs, opts, hist)
+        if bad:
+            k, again, fresh = bad[0]
+            viols.append({"what": "one Differ fed the same tree objects again (step %d: %s) gives a different script than a new Differ: %r vs %r"
+                                  % (k, hist[k][2], again, fresh),
+                          "replay": {"kind": "differ-same-objects", "opts": opts, "docs": docs, "history": hist[:k + 1]}})
+
+
+def edit_in_place(e, n):
+    """a small deterministic revision of a tree, in place: one text, one attribute or one tail changes"""
+    nodes = [x for x in e.iter() if isinstance(x.tag, str)]
+    x = nodes[n % len(nodes)]
+    if n % 3 == 0:
+        x.text = (x.text or "") + " rev%d" % n
+    elif n % 3 == 1:
+        x.set("rev", str(n))
+    elif x is not e:
+        x.tail = (x.tail or "") + "t%d" % n
+    else:
+        x.text = "r%d" % n
+
+
+def differ_object_history(docs, opts, hist):
+    """Runs the history on ONE Differ and one set of tree objects; returns [(step, reused, fresh)] where they differ."""
+    from xmldiff import main, diff
+    objs = [X(d) for d in docs]
+    d = diff.Differ(**opts)
+    bad = []
+    for k, (i, j, how, n) in enumerate(hist):
+        if how == "edit-right":
+            edit_in_place(objs[j], n)
+        if how == "edit-left":
+            edit_in_place(objs[i], n)
+        li, rj = etree.tostring(objs[i]).decode(), etree.tostring(objs[j]).decode()
+        fresh = call(lambda: struct(main.diff_trees(X(li), X(rj), diff_options=opts)))
+        if how == "match+diff":
+            call(lambda: d.match(objs[i], objs[j]))
+        if how == "diff-partial":      # an earlier generator abandoned half way
+            g = d.diff(objs[i], objs[j])
+            call(lambda: next(g, None))
+        again = call(lambda: struct(list(d.diff(objs[i], objs[j]))))
+        if fresh != again:
+            bad.append((k, again, fresh))
+            d = diff.Differ(**opts)
+    return bad
 
 
 ATTR_HEAVY = [
@@ -1006,7 +1058,7 @@ def monitor_processes(run, rng, corpus, viols, counts):
     counts["subprocess_runs"] = len(variants)
     # every namespace-introducing pair alone in a fresh process (no history at all) against its result
     # in the middle of the corpus run
-    idxs = [i for i, c in enumerate(corpus) if (c[0], c[1]) in NS_INTRO]
+    idxs = [i for i, c in enumerate(corpus) if (c[0], c[1]) in NS_INTRO + TEXT_SLIDE]
     with ThreadPoolExecutor(8) as ex:
         alone = list(ex.map(lambda i: run_worker({"corpus": [corpus[i]], "prelude": []}, "0"), idxs))
     for i, res in zip(idxs, alone):
@@ -1207,7 +1259,7 @@ def main(run):
     monitor_reuse_objects(rng, pairs[: (50 if quick else 600)], viols, counts)
     # namespace-introducing pairs, in order, in one process: base / adversarial diffs / again
     monitor_history(run, rng, [(a, b, {}) for a, b in NS_INTRO], viols, counts, "history")
-    corpus = [[a, b, o] for a, b, o in (pairs[: (30 if quick else 400)] + pairs[-19:])] + [[a, b, {}] for a, b in NS_INTRO]
+    corpus = [[a, b, o] for a, b, o in (pairs[: (30 if quick else 400)] + pairs[-19:])] + [[a, b, {}] for a, b in NS_INTRO + NS_MULTI + TEXT_SLIDE]
     monitor_processes(run, rng, corpus, viols, counts)
     run.log("monitor (history): %d in-process re-computations after adversarial diffs (%d differed), non-root-namespace stream %d (%d differed), "
             "%d XMLFormatter / %d Differ reuse comparisons; %d subprocess runs, %d comparisons (%d differed); known-finding stream: %d differences"
@@ -1347,20 +1399,10 @@ def replay(run, path):
         print("reuse dependence reproduced" if bad else "property holds on this input")
         return 1 if bad else 0
     if kind == "differ-same-objects":
-        docs = d["docs"]
-        objs = [X(x) for x in docs]
-        dd, bad = diff.Differ(**d["opts"]), 0
-        for i, j, how in d["history"]:
-            fresh = call(lambda: struct(M.diff_trees(X(docs[i]), X(docs[j]), diff_options=d["opts"])))
-            if how == "match+diff":
-                call(lambda: dd.match(objs[i], objs[j]))
-            if how == "diff-partial":
-                g = dd.diff(objs[i], objs[j])
-                call(lambda: next(g, None))
-            again = call(lambda: struct(list(dd.diff(objs[i], objs[j]))))
-            if fresh != again:
-                bad += 1
-                print("reused differ:", again, " new differ:", fresh)
+        hist = [h if len(h) == 4 else list(h) + [0] for h in d["history"]]
+        bad = differ_object_history(d["docs"], d["opts"], hist)
+        for k, again, fresh in bad:
+            print("step", k, "reused differ:", again, " new differ:", fresh)
         print("reuse dependence reproduced" if bad else "property holds on this input")
         return 1 if bad else 0
     if kind == "xml-reuse":
